@@ -333,7 +333,18 @@ def make_algebra(cfg, **options):
         kw['basis'] = list(cfg['basis'])
     elif cfg.get('start_index') is not None:
         kw['start_index'] = cfg['start_index']
-    return Algebra(**kw)
+    try:
+        return Algebra(**kw)
+    except Exception as e:
+        raise ConstructionFailed(cfg, options, e)
+
+
+class ConstructionFailed(Exception):
+    """An admissible configuration could not be constructed (every enumerated configuration is admissible)."""
+
+    def __init__(self, cfg, options, err):
+        super().__init__(f'{cfg} {options}: {type(err).__name__}: {err}')
+        self.cfg, self.options, self.err = cfg, options, err
 
 
 def mv_to_ref(alg, ref, mv):
